@@ -60,4 +60,68 @@ CLAIMS = {
         note="No separate model: the transition function is the code, so traces_validated_against_impl = transitions. "
         "Bounded depth; states canonicalised to 10 significant digits; unbounded (>1e6) states not expanded.",
     ),
+    "C10": dict(
+        category="model_checking",
+        ref="4/C10",
+        technique="explicit-state search of the complete held-time transition graph (every tick over a boundary-rich time grid from every reachable held time) on the real Python and C++ runtimes with recording stand-in filters",
+        text="The state of the managed filter relevant to stepping is its held time; for every max step and start time the "
+        "complete transition relation over a grid containing exact multiples, +-2^-20 relative neighbours, sub-resolution "
+        "offsets and backward targets is executed through real tick() calls (Python runtime.py; ManagedFilter.h compiled "
+        "against recording Impls) and the step-plan invariant is evaluated on every move.",
+        note="The wrapped filter is a stand-in that records dt arguments; the runtimes are the real, unmodified sources. "
+        "C++ built with g++ -std=c++17 (ManagedFilter.h does not need Eigen).",
+    ),
+    "C11": dict(
+        category="model_checking",
+        ref="4/C11",
+        technique="explicit-state BFS over tick histories (every output time x every reading list up to length 2/3 from every reachable held time, depth 3) on the real Python and C++ runtimes with a symbolic stand-in filter, each transition compared with a reference fold",
+        text="The stand-in filter returns symbolic terms, so each tick's return value records the exact composition of filter "
+        "calls; every tick of the bounded alphabet from every reachable held time is executed on the real runtime and "
+        "compared with the 6-line reference fold (result, held time, held estimate); reading-less ticks are checked "
+        "differentially; Python and C++ call traces are compared for the same histories.",
+        note="Exploration is on the implementation (traces_validated_against_impl = transitions). Consecutive prediction steps "
+        "are collapsed (their split is C10). C++ compiled with g++ from the unmodified ManagedFilter.h.",
+    ),
+    "C02": dict(
+        category="exploration",
+        ref="4/C02",
+        technique="bounded exhaustive enumeration of programs (all control x calibration combinations, 0..3 sensors x 1..3 readings, CSE on/off): real formak.cpp output compiled with g++ and executed, every function result compared by name with the reference interpreter",
+        text="Every program of the families is generated by the public cpp.compile_ekf / cpp.compile entry points, compiled "
+        "(a compile error on a valid definition is a violation) and run; all seven kinds of generated function are "
+        "compared entry-by-entry at 8 all-distinct points with exact partial derivatives and the configured noise, inputs "
+        "set through named Options fields and outputs read through named accessors; unassigned entries show as NaN.",
+        note="Eigen and Bazel are absent: compiled against a ~150-line vendored stand-in for the Eigen slice the generator uses "
+        "(fixed sizes, dimension errors are compile errors, NaN-poisoned default construction, bounds-checked access).",
+    ),
+    "C08": dict(
+        category="exploration",
+        ref="4/C08",
+        technique="bounded exhaustive enumeration of CSE-heavy programs x grid, CSE on vs off vs reference on the real Python filter and the compiled generated C++, plus a def-use pass over every generated function body",
+        text="Every program of the CSE family (the only place sympy.cse produces ordered, nested temporaries) is evaluated "
+        "with CSE on and off: model, all Jacobians, process_model and sensor_model in Python on the full grid, and all "
+        "generated functions in C++; results must agree with each other and with the reference; the generated C++ text is "
+        "scanned so that each local is declared once, before use, from parameters and earlier locals only.",
+        note="Python temporaries are checked behaviourally (use-before-assignment raises at the first evaluation). C++ via the Eigen stand-in.",
+    ),
+    "C07": dict(
+        category="exploration",
+        ref="4/C07",
+        technique="exhaustive enumeration of all predict/update event sequences up to length 3 per (program, CSE, threshold) on the real Python filter, each step replayed on the compiled generated C++ filter and compared by name",
+        text="For every program/configuration every event sequence up to the depth bound is executed on the Python filter and "
+        "each step is re-executed by the generated C++ filter on bit-identical inputs; state, covariance, stored innovation "
+        "and accept/reject must agree to rounding, with inputs set and outputs read through named fields on both sides.",
+        note="C++ compiled against the Eigen stand-in (Gauss-Jordan inverse; numpy uses LAPACK) - agreement is required to 1e-9 "
+        "relative, far above the difference between the two inverses on the well-conditioned inputs used.",
+    ),
+    "C12": dict(
+        category="exploration",
+        ref="4/C12",
+        technique="exhaustive enumeration of filter configurations (control x calibration x sensor sets x max step x models) and of a complete tick scenario menu (all ordered reading pairs x timestamps), compiled against the real ManagedFilter.h and compared with a hand-made fold",
+        text="Each generated filter is compiled with the unmodified ManagedFilter.h (compatibility static_assert, all tick "
+        "overloads) and driven through a scenario menu covering reading-less, empty-vector, single and all ordered pairs of "
+        "readings in and out of order; a derived recorder yields the step list, the driver recomputes every tick by hand with "
+        "process_model / sensor_model in fold order, and both results must agree to 1e-12 with steps satisfying C10.",
+        note="Compiled against the Eigen stand-in. The recorder derives from the generated filter and only logs; readings derive "
+        "from the generated reading types and only log.",
+    ),
 }
